@@ -111,8 +111,14 @@ def bad_factory(name):
     return lambda: clientkit.bad_messages()[name]
 
 
-def make_b(kind, badname):
+def make_b(kind, badname, never_connected=False):
     pk = clientkit.std(kind)
+
+    def make_idle(devs):
+        # a client on which connect() was never called: an unsendable message must not make it connect either
+        return dict(kind=kind, script=[vloop.it_wait(0.5), vloop.it_wait(0.5)], specials={"bad": vloop.sp_send(bad_factory(badname))}, deviations=devs)
+    if never_connected:
+        return make_idle
 
     def make(devs):
         return dict(kind=kind, script=[it_connect, it_feed(pk["A"][:6]), it_feed(pk["A"][6:]), it_feed(pk["A2"])],
@@ -129,8 +135,9 @@ def view_b(sess, o):
 
 
 def _task_b(args):
-    kind, badname = args
-    make = make_b(kind, badname)
+    kind, badname = args[:2]
+    idle = len(args) > 2 and args[2]
+    make = make_b(kind, badname, idle)
     base = {}
     vios, outcomes = [], set()
     stats = {"nontrivial": 0}
@@ -143,16 +150,16 @@ def _task_b(args):
             return
         outcomes.add(repr(v))
         # is the send landing at a point where a connection exists?
-        if sess.client.writer is not None:
+        if sess.client.writer is not None or idle:
             stats["nontrivial"] += 1
         diff = [k for k in v if v[k] != base[k]]
         if diff:
             kindv = "bad_message_disturbs"
             facts = {"client": kind, "part": "B", "bad": badname, "changed": diff}
             vios.append({"kind": kindv, "facts": facts, "signature": f"B:{kind}:{badname}:{diff}",
-                         "detail": f"[{kind} bad={badname} at {devs}] differs from the undisturbed session in {diff}: "
+                         "detail": f"[{kind} bad={badname} at {devs}{' on a client that never connected' if idle else ''}] differs from the undisturbed session in {diff}: "
                                    f"{ {k: (base[k] if k != 'received' else len(base[k]), v[k] if k != 'received' else len(v[k])) for k in diff} }",
-                         "case": {"part": "B", "client": kind, "bad": badname, "deviations": [list(d) for d in devs]}})
+                         "case": {"part": "B", "client": kind, "bad": badname, "idle": bool(idle), "deviations": [list(d) for d in devs]}})
         if not sample:
             sample.append({"part": "B", "client": kind, "bad": badname, "deviations": [list(d) for d in devs], "status": v["status"]})
 
@@ -275,6 +282,7 @@ def plan(ctx):
         bads = ["missing_field", "out_of_range", "unknown_pgn"] + (["good_on_actisense"] if kind == "actisense" else [])
         for b in bads:
             tb.append((kind, b))
+            tb.append((kind, b, True))
     for kind in SEND_KINDS:
         for name in ("gnss", "hdg", "fast2", "iso"):
             tc.append((kind, name))
@@ -326,7 +334,7 @@ def replay(ctx, rep):
         sess, o = run_a(kind, tuple(c["names"]), c["mode"], c["mask"])
         res = judge_a(kind, tuple(c["names"]), sess, o)
     elif c["part"] == "B":
-        make = make_b(kind, c["bad"])
+        make = make_b(kind, c["bad"], c.get("idle", False))
         sb, ob = vloop.run_session(**make([]))
         s, o = vloop.run_session(**make([tuple(d) for d in c["deviations"]]))
         vb, v = view_b(sb, ob), view_b(s, o)
